@@ -525,6 +525,19 @@ Section Recording.
     | None => HErr BadMutation
     end.
 
+  (** With an input data handler (tape_recorder.py:855-856) the value that goes through the lines
+      above is NOT the function's return value but the handler's prepared form
+      [prepare_input_for_recording(key, result, args, kwargs)]: any object, possibly a new container
+      that embeds the result AND live objects of the call (an out-parameter the input filled, a
+      request object).  The copy is taken AFTER the handler ran, of the prepared form, so
+      [record_value] applies with [result := prepared form].  One concrete handler shape: *)
+  Definition prepare_count_rows (h : heap) (result buf : ref) : heap * ref :=
+    (h ++ [NDict [(U"count", result); (U"rows", buf)]], RLoc (length h)).
+  Definition record_input_with_handler (copy : bool) (fuel : nat) (h : heap) (rec : nat) (k : str)
+             (result buf : ref) : hres heap :=
+    let '(hp, prepared) := prepare_count_rows h result buf in
+    record_value copy fuel hp rec k prepared.
+
   (** what is recorded under [k]: the object stored under 'value' *)
   Definition recorded_value (h : heap) (rec : nat) (k : str) : option ref :=
     match get_data_direct h rec k with
